@@ -255,7 +255,9 @@ def _check_orphan_hole(ctx, m, names, cfg, rule):
                                  and ir.field_path(m, f, f.insts[o[1]].ops[0]) == ir.field_path(m, f, f.insts[hole[1]].ops[0])):
                     s.env[("own", "h")] = "freed"
             return None
-    ex = Explorer(f, assume_def={call.id: ("ptr", None, "null")}, plugin=P(), start_block=call.block.idx).run()
+    ex = Explorer(f, assume_def={call.id: ("ptr", None, "null")}, plugin=P(), start_block=call.block.idx)
+    ex.seed_dominating = True
+    ex.run()
     bad = [(s, t) for s, t, av in ex.rets if s.env.get(("own", "h")) in ("orphan", "leaked")]
     inst = {"rule": "L5", "function": f.name, "config": cfg}
     if bad:
